@@ -1039,8 +1039,8 @@ def run(ck: common.Check):
                 ck.corr_broken("C04:validateStructure", {"label": label, "target": t}, im["vs"], mo["out"])
             if mo["out"] != want:
                 ck.corr_broken("C04:model-vs-python-oracle", {"label": label, "target": t}, want, mo["out"])
-            # GeffReader.__init__ (theorem C04_reader_outcome); a StorePath argument is the known reader defect
-            if "reader" in im and t["store"] != "storepath":
+            # GeffReader.__init__ (theorem C04_reader_outcome)
+            if "reader" in im:
                 if mo["reader"] != im["reader"]:
                     ck.corr_broken("C04:readerInit", {"label": label, "target": t}, im["reader"], mo["reader"])
                 elif im["reader"] == "ok" and im["reader_names"] != [mo["node"], mo["edge"]]:
